@@ -290,7 +290,7 @@ func (k *c04keyer) key(q c04q) string {
 	m.Extra[0].(*dns.OPT).SetDo(q.F&4 != 0)
 	m.Question[0] = dns.Question{Name: c04names[q.N].pres, Qtype: q.T, Qclass: q.C}
 	k.calls++
-	return getMsgKey(m)
+	return verifMsgKey(m)
 }
 
 // c04ctx builds the query context the way the server entry does: wire bytes ->
